@@ -1116,7 +1116,18 @@ class WorkflowConductor(object):
 
         # Process the task event using the workflow state machine and update the workflow status.
         task_ex_event = events.TaskExecutionEvent(task_id, route, task_state_entry["status"])
+        old_workflow_status = self.get_workflow_status()
         machines.WorkflowStateMachine.process_event(self.workflow_state, task_ex_event)
+
+        # If the task event puts the workflow in canceling (i.e. the action execution is canceled
+        # by the user), pass the cancelation on to the other active tasks as a cancel request does.
+        # Otherwise a task with items that has not scheduled all of its items stays active with
+        # nothing in flight and the workflow never reaches canceled.
+        if (
+            old_workflow_status not in statuses.CANCEL_STATUSES
+            and self.get_workflow_status() == statuses.CANCELING
+        ):
+            self.request_workflow_status(statuses.CANCELING)
 
         # Process any engine commands in the queue.
         while not engine_event_queue.empty():
